@@ -1384,3 +1384,116 @@ Lemma of_val_inv1 : forall v kl key, inv (of_val kl key v).
 Proof. intros. apply of_val_inv. Qed.
 Lemma of_val_good : forall v kl key, good (of_val kl key v).
 Proof. intros. split; [apply of_val_inv1 | apply of_val_kl]. Qed.
+
+(* ------------------------------------------------------------------ `test`: succeeds iff the values are equal
+   (added after seeded change round2/C15: an int64 comparison by truncated difference) *)
+
+(* the equality of the specification, clause by clause: it is the mathematical one.  Integers are equal iff they are the same
+   integer (no modulus: values that differ by 2^32, 2^53, 2^63 are different), strings iff the same bytes (a 0 byte is a byte),
+   arrays item by item, objects as unordered member sets. *)
+Lemma jeq_int_iff : forall feq x b, jeq feq (JI64 x) b = true <-> b = JI64 x.
+Proof.
+  intros feq x b. destruct b; simpl; split; intro H; try discriminate; try reflexivity.
+  - apply Z.eqb_eq in H. subst. reflexivity.
+  - injection H as <-. apply Z.eqb_refl.
+Qed.
+Lemma jeq_str_iff : forall feq s b, jeq feq (JStr s) b = true <-> b = JStr s.
+Proof.
+  intros feq s b. destruct b; simpl; split; intro H; try discriminate; try reflexivity.
+  - apply bytes_eqb_eq in H. subst. reflexivity.
+  - injection H as <-. apply bytes_eqb_refl.
+Qed.
+Lemma jeq_bool_iff : forall feq x b, jeq feq (JBool x) b = true <-> b = JBool x.
+Proof.
+  intros feq x b. destruct b as [|y| | | | |]; simpl; split; intro H; try discriminate; try reflexivity.
+  - apply Bool.eqb_prop in H. subst. reflexivity.
+  - injection H as <-. apply Bool.eqb_reflx.
+Qed.
+Lemma jeq_null_iff : forall feq b, jeq feq JNull b = true <-> b = JNull.
+Proof. intros feq b. destruct b; simpl; split; intro H; try discriminate; reflexivity. Qed.
+Lemma jeq_f64_iff : forall feq x b, jeq feq (JF64 x) b = true <-> exists y, b = JF64 y /\ feq x y = true.
+Proof.
+  intros feq x b. destruct b; simpl; split; intro H; try discriminate; try (destruct H as [y [H _]]; discriminate).
+  - eexists. split; [reflexivity | exact H].
+  - destruct H as [y [H1 H2]]. injection H1 as ->. exact H2.
+Qed.
+Lemma jeq_arr_iff : forall feq l b,
+  jeq feq (JArr l) b = true <-> exists m, b = JArr m /\ Forall2 (fun x y => jeq feq x y = true) l m.
+Proof.
+  intros feq l b. destruct b as [| | | | |m|]; simpl;
+    try (split; intro H; [discriminate | destruct H as [m' [H _]]; discriminate]).
+  split.
+  - intro H. exists m. split; [reflexivity|]. revert m H. induction l as [|x l IH]; intros [|y m] H; try discriminate.
+    + constructor.
+    + apply andb_true_iff in H. destruct H as [H1 H2]. constructor; [exact H1 | apply IH; exact H2].
+  - intros [m' [E F]]. injection E as <-. induction F as [|x y l m Hxy F IH]; [reflexivity|].
+    apply andb_true_iff. split; [exact Hxy | exact IH].
+Qed.
+Lemma jeq_obj_iff : forall feq xs b,
+  jeq feq (JObj xs) b = true <->
+  exists ys, b = JObj ys /\ length xs = length ys /\
+             Forall (fun m => exists y, lookup (fst m) ys = Some y /\ jeq feq (snd m) y = true) xs.
+Proof.
+  intros feq xs b. destruct b as [| | | | | |ys]; simpl;
+    try (split; intro H; [discriminate | destruct H as [m' [H _]]; discriminate]).
+  split.
+  - intro H. apply andb_true_iff in H. destruct H as [HL H]. apply Z.eqb_eq in HL. apply Nat2Z.inj in HL.
+    exists ys. split; [reflexivity | split; [exact HL|]]. clear HL.
+    induction xs as [|[k x] xs IH]; [constructor|].
+    apply andb_true_iff in H. destruct H as [H1 H2]. constructor; [|apply IH; exact H2].
+    simpl. destruct (lookup k ys) as [y|]; [|discriminate]. exists y. split; [reflexivity | exact H1].
+  - intros [ys' [E [HL F]]]. injection E as <-. apply andb_true_iff. split; [apply Z.eqb_eq; rewrite HL; reflexivity|].
+    clear HL. induction F as [|[k x] xs [y [Hl Hy]] F IH]; [reflexivity|].
+    simpl in Hl, Hy. rewrite Hl. apply andb_true_iff. split; [exact Hy | exact IH].
+Qed.
+
+(* a `test` operation never changes the tree, and its result code is decided by the comparison alone *)
+Lemma test_outcome : forall fo t o v, p_op o = OTest -> p_val o = Some v ->
+  apply_op fo t o =
+  (match (if is_root (p_path o) then Some t else m_find t (p_path o)) with
+   | Some x => if nodes_eq fo x v then RcOk else RcTestFailed
+   | None => RcTestFailed
+   end, t).
+Proof.
+  intros fo t o v Ho Hv. unfold apply_op. rewrite Ho, Hv.
+  replace (op_eqb OTest OSwap) with false by reflexivity. replace (op_eqb OTest OTest) with true by reflexivity.
+  cbn [andb]. destruct (if is_root (p_path o) then Some t else m_find t (p_path o)) as [x|]; [|reflexivity].
+  destruct (nodes_eq fo x v); reflexivity.
+Qed.
+
+(* `test` succeeds iff the addressed value exists and is rfc6902-equal to the operand; in every case the tree is untouched *)
+Lemma test_iff_equal : forall fo t o v, inv t -> n_ty t <> TNone -> p_op o = OTest -> p_val o = Some v -> good v ->
+  snd (apply_op fo t o) = t /\
+  (fst (apply_op fo t o) = RcOk <->
+   exists x, (if is_root (p_path o) then Some (val t) else jget lenient (val t) (p_path o)) = Some x /\
+             jeq (f_eq fo) x (val v) = true) /\
+  (fst (apply_op fo t o) <> RcOk -> fst (apply_op fo t o) = RcTestFailed).
+Proof.
+  intros fo t o v It Nt Ho Hv Gv. rewrite (test_outcome fo t o v Ho Hv). cbn [fst snd]. split; [reflexivity|].
+  destruct (is_root (p_path o)) eqn:R.
+  - rewrite (nodes_eq_spec fo t (conj It Nt) v Gv). split.
+    + split.
+      * intro H. exists (val t). split; [reflexivity|]. destruct (jeq (f_eq fo) (val t) (val v)); [reflexivity | discriminate].
+      * intros [x [E H]]. injection E as <-. rewrite H. reflexivity.
+    + destruct (jeq (f_eq fo) (val t) (val v)); intro H; [contradiction H; reflexivity | reflexivity].
+  - pose proof (find_spec (p_path o) t It) as F.
+    assert (NP : p_path o <> []) by (intro E; rewrite E in R; discriminate).
+    destruct (m_find t (p_path o)) as [x|].
+    + destruct F as [F1 [F2 F3]]. rewrite (nodes_eq_spec fo x (conj F2 (F3 NP)) v Gv). split.
+      * split.
+        -- intro H. exists (val x). split; [exact F1|]. destruct (jeq (f_eq fo) (val x) (val v)); [reflexivity | discriminate].
+        -- intros [y [E H]]. rewrite F1 in E. injection E as <-. rewrite H. reflexivity.
+      * destruct (jeq (f_eq fo) (val x) (val v)); intro H; [contradiction H; reflexivity | reflexivity].
+    + split.
+      * split; [discriminate|]. intros [y [E _]]. rewrite F in E. discriminate.
+      * reflexivity.
+Qed.
+
+(* the integer leaf, spelled out on trees: no pair of different integers compares equal *)
+Lemma test_int_exact : forall fo kl k kl' k' x y,
+  nodes_eq fo (of_val kl k (JI64 x)) (of_val kl' k' (JI64 y)) = true <-> x = y.
+Proof.
+  intros. rewrite (nodes_eq_spec fo _ (of_val_good (JI64 x) kl k) _ (of_val_good (JI64 y) kl' k')).
+  destruct (of_val_inv (JI64 x) kl k) as [_ ->]. destruct (of_val_inv (JI64 y) kl' k') as [_ ->].
+  rewrite jeq_int_iff. split; intro H; [injection H as ->; reflexivity | subst; reflexivity].
+Qed.
